@@ -1,4 +1,4 @@
-From CV Require Import Transport.Transport.
+From CV Require Import Transport.Transport Transport.CtxWrite.
 From Coq Require Import ExtrOcamlBasic.
 Extraction Language OCaml.
-Extraction "transport_model.ml" run_tbl orc_of run t_init.
+Extraction "transport_model.ml" run_tbl orc_of run t_init cw_run_tbl.
